@@ -375,6 +375,13 @@ func init() {
 	}
 	callModels["(net.IP).To4"] = ipTo(4)
 	callModels["(net.IP).To16"] = ipTo(16)
+	callModels["context.WithCancel"] = func(e *Engine, f *frame, st *State, args []Val, rt types.Type, pos string) Val {
+		v := e.havocResult(st, "withcancel", rt)
+		c := e.C
+		// (ctx, cancel): both non-nil
+		e.assume(st, c.And(c.Not(c.Eq(v.Terms[0], c.IntLit(0))), c.Not(c.Eq(v.Terms[1], c.IntLit(0))), c.Not(c.Eq(v.Terms[2], c.IntLit(0)))))
+		return v
+	}
 	callModels["reflect.MakeSlice"] = func(e *Engine, f *frame, st *State, args []Val, rt types.Type, pos string) Val {
 		c := e.C
 		ln, cp := args[1].Terms[0], args[2].Terms[0]
